@@ -56,21 +56,37 @@ def run(pkg, task, alg, kind, handle):
     return None
 
 
-class _Ghost(dawgie.Algorithm):
-    DAWGIE_IGNORE = True
+_GHOST = []
 
-    def __init__(self):
-        dawgie.Algorithm.__init__(self)
-        self._version_ = dawgie.VERSION(1, 0, 0)
 
-    def name(self):
-        return 'ghost'
+def _Ghost():
+    """an algorithm no engine package owns.  The class is built on first use
+    with the scanner's registration hook switched off: a dawgie.Algorithm
+    subclass defined outside the engine package must not be seen by a scan
+    that happens to be in progress"""
+    if not _GHOST:
+        saved = dawgie._master_registry
+        dawgie._master_registry = lambda _cls=None: None
+        try:
+            class Ghost(dawgie.Algorithm):
+                DAWGIE_IGNORE = True
 
-    def previous(self):
-        return []
+                def __init__(self):
+                    dawgie.Algorithm.__init__(self)
+                    self._version_ = dawgie.VERSION(1, 0, 0)
 
-    def state_vectors(self):
-        return []
+                def name(self):
+                    return 'ghost'
+
+                def previous(self):
+                    return []
+
+                def state_vectors(self):
+                    return []
+        finally:
+            dawgie._master_registry = saved
+        _GHOST.append(Ghost)
+    return _GHOST[0]()
 
 
 class _GhostSV(dawgie.StateVector):
